@@ -121,3 +121,8 @@ def shrink(line, still):
                 chunks = c2; r = 0 if kind != "bytes" else -1; changed = True
                 break
     return pu.frame_line(skip, trim, kind, r, chunks)
+
+
+def extra_evidence():
+    from space_packet_parser import packets
+    return {"trim_threshold_lowered_in_code_object": pu.REAL_TRIM in packets.ccsds_generator.__code__.co_consts}
